@@ -2,6 +2,7 @@
 """refactortest.py <dir with r*/patch.diff> [props...] — applies each behaviour-preserving refactoring in a scratch
 worktree and runs the given checks (default: all claimed); any VIOLATION is a false alarm to investigate."""
 import json, os, subprocess, sys, tempfile, glob
+GICHECK = os.environ.get("GICHECK", "/verif/bin/gicheck")
 src = sys.argv[1]
 props = sys.argv[2:] or [c["property_id"] for c in json.load(open("/verif/MANIFEST.json"))["checks"]]
 for d in sorted(glob.glob(os.path.join(src, "r*"))):
@@ -16,7 +17,7 @@ for d in sorted(glob.glob(os.path.join(src, "r*"))):
         alarms = []
         def one(p):
             out = []
-            r = subprocess.run(f"/verif/bin/gicheck -property {p} -repo {wt} -verif /tmp/seedtest-verif", shell=True, capture_output=True, text=True)
+            r = subprocess.run(f"{GICHECK} -property {p} -repo {wt} -verif /tmp/seedtest-verif", shell=True, capture_output=True, text=True)
             for l in r.stdout.splitlines():
                 if l.startswith(("VIOLATED", "UNDECIDED")):
                     out.append(p + " " + l[:260])
